@@ -825,6 +825,34 @@ MANIFEST = dict(
 
 
 # --------------------------------------------------------------------------
+# audit (round 4): what of the anchored code can influence the observation, and which case kind exercises it
+# --------------------------------------------------------------------------
+API_SURFACE = [
+    ('_iter_body / _body_read(content_length=, max_body_size=)', 'covered by body/func, body/wsgi, body/request'),
+    ('_iter_chunked under a limit', 'covered by body/* chunked (legal, with extensions) and the malformed ones (expect=reject)'),
+    ('_body_read spool switch (BytesIO -> TemporaryFile)', 'covered: type of Request.body at size = threshold, +1, default 100 KiB'),
+    ('_body_read(markup=)', 'covered by budget/wsgi (fragmented multipart bodies)'),
+    ('BodyMixin._get_body_string', 'covered by text/gbs (twice on one request), text/forms, text/request'),
+    ('BodyMixin.json / POST json branch / forms', 'covered by text/forms json (Request.json) and inner=forms_json (Request.forms); '
+                                                  'excluded: invalid JSON / JSON that is no object -> 400 (C12)'),
+    ('BodyMixin.POST multipart branch, forms, files', 'covered by budget/wsgi (files before forms and after; repeated names)'),
+    ('FieldStorage.read / iter_items(max_read)', 'covered by budget/iter_items and budget/wsgi; excluded: undecodable / nameless '
+                                                 'headers, data before the first delimiter, missing data section -> 400 (C12)'),
+    ('BytesIOProxy.read(sz) / read()', 'covered by budget/wsgi (block-wise and whole reads of every upload)'),
+    ('BodyMixin.content_length / chunked', 'covered (both headers present: correspondence only); spellings: C05'),
+    ('Request.body read earlier / Request.copy() after the read / second Request over the environ', "covered by pre ops"),
+    ('BaseRequest._raise, errors_map present / absent', 'covered by conf ctor/setup/setup_over/default and via=request with '
+                                                        'DefaultConfig vs plain dict (C13_unmapped_errors_escape)'),
+    ('Ombott.__init__ / setup', 'covered by conf'),
+    ('config max_body_size None / 0 / n, max_memfile_size', 'covered (sizes at limit-1, limit, limit+1, limit+buf, 10x)'),
+    ('config errors_map overridden by the user', 'excluded: the status is then the user\'s choice'),
+    ('application and Request objects reused, shared HTTPError instances, two applications', 'covered by kind=seq '
+                                                                                             '(C13_response_function_of_request)'),
+    ('wsgi.input short reads / early EOF', 'covered by every body/text case and fragmented multipart bodies'),
+    ('temporary file on disk', 'excluded: OS (content checked by the correspondence only)'),
+]
+
+# --------------------------------------------------------------------------
 # dev-only: line coverage of the anchored functions  (VERIF_COVERAGE=1 ./check C13 --no-coq)
 # --------------------------------------------------------------------------
 COVERAGE_TARGETS = {
